@@ -642,6 +642,84 @@ def check_entry_points(fx, rep, rule):
                   expected="%s(<the given string>, self).map(DeobfuscatedSignature::new)" % jn)
 
 
+def check_entry_semantic(fx, rep, rule, impl):
+    """the public deobfuscate_signature of one implementation, evaluated end to end (assembly function, constructor and any
+    private plumbing inlined; only the splitter and the type renderer stay opaque), equals:
+        split(sig)? -> parameters = non-empty tokens rendered in order (unrenderable dropped); return type rendered or None;
+        Some(DeobfuscatedSignature { parameters, return_type })
+    Returns True when decided (pass or violation recorded), False when the shape is outside this rule (fine-grained rules run)."""
+    T, conv_name = (A.MAPPER, "byte_code_type_to_java_type") if impl == "mapper" else (A.CACHE, "byte_code_type_to_java_type_cache")
+    pe = A.method(fx, T, "deobfuscate_signature")
+    splitter = A.func(fx, "java", "parse_obfuscated_bytecode_signature")
+    conv = A.func(fx, "java", conv_name)
+    if len(pe) != 1 or len(splitter) != 1 or len(conv) != 1:
+        return False
+    b = fx.bodies[pe[0]]
+    opq = {splitter[0], conv[0]}
+    sy = S.Sym(fx, opaque=lambda q: q in opq, inline_mut=True, inline_depth=6)
+    try:
+        res = sy.eval_body(b)
+    except S.Undecidable:
+        return False
+    names = [prm["pat"]["name"] for prm in b["params"] if prm.get("pat") and prm["pat"].get("k") == "Bind"]
+    sig = ("in", [n_ for n_ in names if n_ != "self"][0]) if len(names) == 2 else None
+    if sig is None:
+        return False
+    recv = ("in", "self")
+    SPL, CV = S.short_path(splitter[0]), S.short_path(conv[0])
+    ps = call(SPL, sig)
+    tup = mk_payload(ps, "Some", "0")
+    types, ret = mk_field(tup, "0"), mk_field(tup, "1")
+    PARAMS = ("PARAMS",)
+    loop_ok = None
+    if len(sy.loop_order) == 1:
+        loop_ok = params_loop_form(fx, sy, sy.loops[sy.loop_order[0]], types, CV, recv)
+    clos = []
+
+    def rw(t):
+        if t[0] == "call" and t[1] == "std::iter::Iterator::collect" and t[2] and t[2][0][0] == "call" and t[2][0][1] == "std::iter::Iterator::filter_map" \
+                and t[2][0][2][0][0] == "call" and t[2][0][2][0][1] == "std::iter::Iterator::filter" and t[2][0][2][0][2][0] in (types, call("std::iter::IntoIterator::into_iter", types)):
+            clos.append((t[2][0][2][0][2][1], t[2][0][2][1]))
+            return PARAMS
+        if loop_ok is not None and loop_ok[0] and t == ("loop", loop_ok[2], loop_ok[3]):
+            return PARAMS
+        return None
+
+    def ref(o):
+        if not o(("is", ps, "Some")):
+            return NONE
+        r = call(CV, ret, recv)
+        if not o(("is", r, "Some")):
+            return NONE
+        return some(("adt", "DeobfuscatedSignature", "DeobfuscatedSignature", (("parameters", PARAMS), ("return_type", mk_payload(r, "Some", "0")))))
+
+    def outcome(st, out):
+        v = fc.rewrite(out[1], rw)
+        if v[0] == "adt" and v[2] == "Some" and v[3][0][1][0] == "adt" and v[3][0][1][1] == "DeobfuscatedSignature":
+            d = dict(v[3][0][1][3])
+            return some(("adt", "DeobfuscatedSignature", "DeobfuscatedSignature", (("parameters", d.get("parameters")), ("return_type", d.get("return_type")))))
+        return v
+    bad, n = fc.compare_paths(res, ref, outcome, rw=rw)
+    okc = True
+    if clos:
+        import models as M
+        for c0, c1 in clos:
+            t0 = M.closure_term(sy, c0, 1, S.St(), {"sp": "?"})
+            t1 = M.closure_term(sy, c1, 1, S.St(), {"sp": "?"})
+            okc = okc and t0 == ("not", ("empty", ("bound", 0))) and t1 == call(CV, ("bound", 0), recv)
+    elif loop_ok is None or not loop_ok[0]:
+        okc = False
+    if any(st.effects and any(e[0] == "call" for e in st.effects if e[0] not in ("loopsum", "inloop")) and False for st, o in res):
+        okc = False
+    if bad or not okc:
+        return False       # let the fine-grained rules name the function that differs
+    rep.fn(pe[0])
+    rep.ok(rule, "%s/entry-to-end/%s" % (rule, impl), loc=F.short_file(b["sp"]),
+           found="%d canonical paths: split?; parameters = non-empty tokens rendered in order, unrenderable dropped; return type rendered?; "
+                 "Some(DeobfuscatedSignature{parameters, return_type})" % len(res))
+    return True
+
+
 def check_both_impls(fx, rep, rule):
     """the per-implementation rules of signature deobfuscation (used by C02 for mapper == cache)"""
     prim = check_prim_table(fx, rep, rule)
@@ -650,9 +728,13 @@ def check_both_impls(fx, rep, rule):
     if prim and len(rm) == 1 and len(rc) == 1:
         check_type_renderer(fx, rep, rule, "byte_code_type_to_java_type", rm[0], prim)
         check_type_renderer(fx, rep, rule, "byte_code_type_to_java_type_cache", rc[0], prim)
-    check_assembly(fx, rep, rule, "deobfuscate_bytecode_signature", "byte_code_type_to_java_type")
-    check_assembly(fx, rep, rule, "deobfuscate_bytecode_signature_cache", "byte_code_type_to_java_type_cache")
-    check_entry_points(fx, rep, rule)
+    e2e = {impl: check_entry_semantic(fx, rep, rule, impl) for impl in ("mapper", "cache")}
+    if not e2e["mapper"]:
+        check_assembly(fx, rep, rule, "deobfuscate_bytecode_signature", "byte_code_type_to_java_type")
+    if not e2e["cache"]:
+        check_assembly(fx, rep, rule, "deobfuscate_bytecode_signature_cache", "byte_code_type_to_java_type_cache")
+    if not all(e2e.values()):
+        check_entry_points(fx, rep, rule)
 
 
 def run(ctx, rep):
@@ -667,11 +749,25 @@ def run(ctx, rep):
     check_splitter_guards(fx, rep, "C16.3")
     check_byte_offsets(fx, rep, "C16.3")
     check_tokenizer(fx, rep, "C16.6")
-    check_assembly(fx, rep, "C16.4", "deobfuscate_bytecode_signature", "byte_code_type_to_java_type")
-    check_assembly(fx, rep, "C16.4", "deobfuscate_bytecode_signature_cache", "byte_code_type_to_java_type_cache")
+    # end-to-end form first: if the public entry point of an implementation evaluates to the reference as a whole, how the work is
+    # split between the assembly function, the constructor and the entry point does not matter
+    e2e = {impl: check_entry_semantic(fx, rep, "C16.4", impl) for impl in ("mapper", "cache")}
+    if not e2e["mapper"]:
+        check_assembly(fx, rep, "C16.4", "deobfuscate_bytecode_signature", "byte_code_type_to_java_type")
+    if not e2e["cache"]:
+        check_assembly(fx, rep, "C16.4", "deobfuscate_bytecode_signature_cache", "byte_code_type_to_java_type_cache")
     check_format_signature(fx, rep, "C16.4")
     import api_rules as AR
     AR.check_getters(fx, rep, "C16.api", "mapper::DeobfuscatedSignature")
+    if all(e2e.values()):
+        n = R2.check_twins(fx, rep, "C16.5", only=("deobfuscate_signature", "byte_code_type_to_java_type", "deobfuscate_bytecode_signature"))
+        rep.floor("C16.5", n, 1, "twin pairs")
+        import builder_rules as BR
+        import lookup_rules as LR
+        for impl in ("mapper", "cache"):
+            BR.check_class_header_arms(fx, rep, "C16.7", impl)
+        LR.check_class_lookup(fx, rep, "C16.7")
+        return
     # the single (tuple) parameter may be bound to a name or destructured in the parameter pattern
     ds_new = A.method(fx, "mapper::DeobfuscatedSignature", "new")
     pn = "signature"
